@@ -247,13 +247,13 @@ theorem small_branch_pos (W p : Nat) (c : Sci) (hc : SciOK W c 0) (hp : 1 ≤ p)
     · exact Or.inr ⟨h, by rw [h]; exact fixed_rat_err false true p x hd hneg⟩
 
 /-- **Small-magnitude mixed branch, negative chain** (`value > -0.01`).  [partial: under `hN`,
-`|x| ≥ 10^-p` — the values that do not round to zero at the branch's precision; for the one double
-between the literal `5e-7` / `5e-15` and its nearest double below, the code relies on
-`float(field1) == float("-0.")` being false, which is tied by the correspondence only.] -/
+`|x| > ½·10^-p` — the values that do not round to zero at the branch's precision; for the one
+double between the literal `5e-7` / `5e-15` and its nearest double below (`|x| ≤ ½·10^-p`), the code
+relies on `float(field1) == float("-0.")` being false, which is tied by the correspondence only.] -/
 theorem small_branch_neg_partial (W p : Nat) (c : Sci) (hc : SciOK W c 0) (hp : 1 ≤ p) (x : Dbl)
     (hneg : x.neg = true) (hn : 0 < x.num) (hd : 0 < x.den)
     (hlo : x.den ≤ 10 ^ 999 * x.num) (hhi : x.num < 10 ^ 999 * x.den)
-    (hN : x.den ≤ x.num * 10 ^ p)
+    (hN : x.den < 2 * (x.num * 10 ^ p))
     (h8 : W = 8 → x.den ≤ 10 ^ 9 * x.num ∧ x.num * 10 ^ 1 < x.den) (k : Bool) :
     (smallNeg W p c x).length = W ∧
     ∃ f : Fld, f.wf = true ∧ smallNeg W p c x = rjust W f.text ∧
@@ -319,7 +319,7 @@ theorem last_branches (W : Nat) (c : Sci) (hW : 3 ≤ W) (x : Dbl) (hd : 0 < x.d
 negative one (precision 6), `x = 1234567.4` and `x = -123456.4` in the final branches. -/
 example : (∃ x : Dbl, x.neg = false ∧ 0 < x.num ∧ 0 < x.den ∧ x.den ≤ 10 ^ 999 * x.num ∧
       x.num < 10 ^ 999 * x.den ∧ x.den ≤ 10 ^ 9 * x.num ∧ x.num * 10 ^ 1 < x.den) ∧
-    (∃ x : Dbl, x.neg = true ∧ 0 < x.num ∧ x.den ≤ x.num * 10 ^ 6 ∧ x.num * 10 ^ 1 < x.den) ∧
+    (∃ x : Dbl, x.neg = true ∧ 0 < x.num ∧ x.den < 2 * (x.num * 10 ^ 6) ∧ x.num * 10 ^ 1 < x.den) ∧
     (∃ x : Dbl, x.neg = false ∧ 0 < x.den ∧ 2 * x.num < (2 * 10 ^ (8 - 1) - 1) * x.den) ∧
     (∃ x : Dbl, x.neg = true ∧ 0 < x.den ∧ 2 * x.num < (2 * 10 ^ (8 - 2) - 1) * x.den) :=
   ⟨⟨⟨false, 5, 10000⟩, rfl, by decide, by decide, by decide +kernel, by decide +kernel, by decide,
